@@ -42,6 +42,26 @@ macro_rules! sized_tag {
     };
 }
 
+/// A sized type of `8 + 4 * W` bytes with the same ID as `T` - "another view of
+/// the same tag", used to look a tag up twice on one loaded structure.
+#[repr(C, align(8))]
+pub struct SameId<T: Tag<IDType = TagType> + ?Sized, const W: usize> {
+    header: TagHeader,
+    extra: [u32; W],
+    _t: std::marker::PhantomData<fn() -> *const T>,
+}
+
+impl<T: Tag<IDType = TagType> + ?Sized, const W: usize> MaybeDynSized for SameId<T, W> {
+    type Header = TagHeader;
+    const BASE_SIZE: usize = size_of::<TagHeader>() + 4 * W;
+    fn dst_len(_: &TagHeader) {}
+}
+
+impl<T: Tag<IDType = TagType> + ?Sized, const W: usize> Tag for SameId<T, W> {
+    type IDType = TagType;
+    const ID: TagType = T::ID;
+}
+
 macro_rules! dst_tag {
     ($name:ident, $fixed_words:expr, $elem:ty, $id:expr) => {
         #[derive(ptr_meta::Pointee)]
@@ -247,7 +267,7 @@ fn probe<T: Probe + ?Sized>(r: Option<&T>, base: usize) -> Out {
 
 /// Views the tag at offset 8 of the boot information `region` as family member
 /// `fam` through both public routes.
-fn view(fam: usize, region: &Aligned, loose: &Aligned, over: &Aligned) -> (Out, Out, Out, Out, Out) {
+fn view(fam: usize, region: &Aligned, loose: &Aligned, over: &Aligned) -> (Out, Out, Out, Out, Out, Out) {
     use mb2_model::panics::catch;
     let base = region.as_ptr() as usize;
     let lbase = (loose.as_ptr() as usize).wrapping_sub(8);
@@ -283,7 +303,19 @@ fn view(fam: usize, region: &Aligned, loose: &Aligned, over: &Aligned) -> (Out, 
                 }
             })
             .unwrap_or(Out::Panic);
-            (a, b, c, d, e)
+            // the same loaded structure asked twice for the same ID: first as another
+            // view type (of 8, 16, .. 40 bytes - one of them may fit), then as $T
+            let f = catch(|| {
+                let m2 = unsafe { BootInformation::load(region.as_ptr().cast()) }.expect("case regions load");
+                let _ = catch(|| m2.get_tag::<SameId<$T, 0>>().is_some());
+                let _ = catch(|| m2.get_tag::<SameId<$T, 2>>().is_some());
+                let _ = catch(|| m2.get_tag::<SameId<$T, 4>>().is_some());
+                let _ = catch(|| m2.get_tag::<SameId<$T, 6>>().is_some());
+                let _ = catch(|| m2.get_tag::<SameId<$T, 8>>().is_some());
+                probe(m2.get_tag::<$T>(), base)
+            })
+            .unwrap_or(Out::Panic);
+            (a, b, c, d, e, f)
         }};
     }
     match fam {
@@ -368,7 +400,7 @@ pub fn eval(c: &Case, obs: &mut Obs) -> Result<(), String> {
     let mut over = region.clone();
     put32(&mut over, 12, (r8(size) + 8 + 8 * (1 + c.key as usize % 3)) as u32);
     let oa = Aligned::new(&over);
-    let (via_get, via_cast, via_slice, via_ptr, via_over) = view(c.fam % FAMILY.len(), &a, &la, &oa);
+    let (via_get, via_cast, via_slice, via_ptr, via_over, via_second) = view(c.fam % FAMILY.len(), &a, &la, &oa);
     let natural = if elem == 0 { r8(fixed) } else { 0 };
     let exact_fit = if elem == 0 { size == fixed } else { size >= fixed && (size - fixed) % elem == 0 };
     // a 4-aligned type whose own size is not a multiple of 8 has no tag it could
@@ -402,6 +434,10 @@ pub fn eval(c: &Case, obs: &mut Obs) -> Result<(), String> {
                 }
             }
         }
+    }
+    // second lookup on the same loaded structure: exactly what the first lookup gives
+    if via_second != via_get {
+        return Err(format!("{name}: get_tag::<{name}>() gives {via_get:?} on a freshly loaded structure but {via_second:?} after the same structure was asked for other view types of the same ID (tag size {size})"));
     }
     // raw-pointer route: whatever it does not refuse obeys the same law
     if let Out::View { off, sov, .. } = via_ptr {
@@ -537,7 +573,7 @@ pub fn subs() -> Vec<Box<dyn Sub>> {
     vec![
         Box::new(PropSub::<Case> {
             name: "custom-family",
-            rule: "34 harness-defined tag types with truthful BASE_SIZE/dst_len (8-aligned: sized with 0..=6 extra words; DST tails with element sizes 1,2,3,4,8,24 behind fixed parts of 8..=24 bytes, alignment-compatible combinations; 4-aligned types that do not embed TagHeader: sized 12..=28 bytes, DST with u32 tail) with custom IDs, viewed through BootInformation::get_tag, DynSizedStructure::cast on the iterated tag, ref_from_slice over the tag followed by slack bytes (0, 8, .., 32, or exactly enough to make the slice as long as the viewing type) + cast, ref_from_ptr on the same memory + cast, and get_tag on a copy of the region whose tag claims 8..24 bytes more than the region has left. Enumerated completely: every type x every tag size 8..=96 (thorough 160) x slack {0, 8, up-to-type-size} x payload {markers, all zero}; generated: sizes up to 1024. Oracle: panic, or a view at the tag's address with size_of_val == r8(tag size) whose last field byte aliases the tag; an exactly fitting size must be accepted. Non-trivial = exact fit, or a sized type at a non-matching size; distinct by (type, size)",
+            rule: "34 harness-defined tag types with truthful BASE_SIZE/dst_len (8-aligned: sized with 0..=6 extra words; DST tails with element sizes 1,2,3,4,8,24 behind fixed parts of 8..=24 bytes, alignment-compatible combinations; 4-aligned types that do not embed TagHeader: sized 12..=28 bytes, DST with u32 tail) with custom IDs, viewed through BootInformation::get_tag, DynSizedStructure::cast on the iterated tag, ref_from_slice over the tag followed by slack bytes (0, 8, .., 32, or exactly enough to make the slice as long as the viewing type) + cast, ref_from_ptr on the same memory + cast, get_tag on a copy of the region whose tag claims 8..24 bytes more than the region has left, and get_tag after the same loaded structure was asked for five other view types of the same ID (the answer must not depend on earlier lookups). Enumerated completely: every type x every tag size 8..=96 (thorough 160) x slack {0, 8, up-to-type-size} x payload {markers, all zero}; generated: sizes up to 1024. Oracle: panic, or a view at the tag's address with size_of_val == r8(tag size) whose last field byte aliases the tag; an exactly fitting size must be accepted. Non-trivial = exact fit, or a sized type at a non-matching size; distinct by (type, size)",
             profiles: Profiles::Both,
             quick: 20000,
             thorough: 300000,
